@@ -7,6 +7,8 @@ No repository change is needed: the fitter is an instance of a runtime subclass 
 `__getattribute__/__setattr__` report the accesses, and the cache helper classes are replaced by
 reporting subclasses for the duration of a run."""
 import contextlib
+import os
+import sys
 import threading
 
 import numpy as np
@@ -24,7 +26,8 @@ class Deadlock(Exception):
 
 
 class Sched:
-    def __init__(self, plan, record_only=False, only=None):
+    def __init__(self, plan, record_only=False, only=None, focus=None):
+        self.focus = set(tuple(f) for f in (focus or ()))     # (file name, function name): pre-emption before every LINE of these
         self.plan = list(plan)
         self.unmodelled = []
         self.only = only        # when given: pre-emption only before accesses to these fields (the others are just logged)
@@ -54,12 +57,27 @@ class Sched:
                 if not self.cv.wait(timeout=60):
                     raise Deadlock('scheduler timeout')
 
+    # line-level pre-emption inside the focus functions (used to turn a detected in-place write into a concrete schedule)
+    def _tracer(self, frame, event, arg):
+        if event == 'call':
+            co = frame.f_code
+            if (os.path.basename(co.co_filename), co.co_name) in self.focus:
+                return self._line_tracer
+        return None
+
+    def _line_tracer(self, frame, event, arg):
+        if event == 'line':
+            self.point('L', 'line', f'{os.path.basename(frame.f_code.co_filename)}:{frame.f_lineno}')
+        return self._line_tracer
+
     def run(self, funcs):
         results = {}
         threads = {}
 
         def body(tid, f):
             _cur.tid = tid
+            if self.focus:
+                sys.settrace(self._tracer)
             with self.cv:
                 while self.turn != tid:
                     if not self.cv.wait(timeout=60):
@@ -70,6 +88,8 @@ class Sched:
             except Exception as e:          # noqa: BLE001 -- the outcome of the call IS the observation
                 results[tid] = ('err', type(e).__name__, str(e)[:300])
             finally:
+                if self.focus:
+                    sys.settrace(None)
                 _cur.tid = None
                 with self.cv:
                     self.alive.discard(tid)
